@@ -31,10 +31,15 @@ Acyclic(w) == \A n \in Nodes : n \notin Cone(w, n)
 
 ParamTerm(p, v) == "p" \o ToString(p) \o ":" \o ToString(v)
 
+\* A processor FAILS (returns an error and the zero value, the empty string) exactly when its A input evaluates to
+\* this string; nodes.Struct keeps the error, bumps the version and serves the zero value.
+ErrTrigger == "p1:13"
+
 RECURSIVE Term(_, _, _), JoinArr(_, _, _)
 Term(w, pv, s) ==
     IF s = NoSrc THEN "-"
     ELSE IF s \in Params THEN ParamTerm(s, pv[s])
+    ELSE IF Term(w, pv, w[s].a) = ErrTrigger THEN ""
     ELSE "n" \o ToString(s) \o "(" \o Term(w, pv, w[s].a) \o "," \o Term(w, pv, w[s].b)
              \o ",[" \o JoinArr(w, pv, w[s].arr) \o "])"
 JoinArr(w, pv, arr) ==
